@@ -160,7 +160,7 @@ type c09Input struct {
 	Dangling        []c09Metric // metrics of pods that are not in the list
 	HostApps        []c09Metric
 	Sys             c09Res
-	SysEmpty        bool    // systemUsage reported without a resource list
+	SysEmpty        bool     // systemUsage reported without a resource list
 	Zones           []c09Res // per-zone capacity; nil = no NodeResourceTopology object
 
 	Thr         [2]int64 // <res>ReclaimThresholdPercent
@@ -691,15 +691,23 @@ func c09CheckBounds(c *kit.Case, in *c09Input, out *c09Out, tag string) {
 			detail := fmt.Sprintf("%s exceeds capacity %d - margin(thr %d%%) %s - max(system usage %d, reservation %d)%s - HP(%s) = %s",
 				what, capacity, in.Thr[res], c09MarginLow(capacity, in.Thr[res]).RatString(), in.systemUsed()[res], in.reserved()[res],
 				map[bool]string{true: "/zones", false: ""}[zone >= 0], [4]string{"usage", "usage", "request", "maxUsageRequest"}[pol], stmt.RatString())
+			// A violation is filed under one of the two signatures of the defects suspected at design time only
+			// if the whole excess over the statement's bound disappears under that defect's reading of the
+			// input (reservation instead of max(system usage, reservation) under the request policy; metric-less
+			// pods uncharged under maxUsageRequest). Any excess beyond that keeps the generic signature. (The
+			// published value can be *below* the defect's reading because the code is deliberately conservative
+			// elsewhere - metrics without a priority, metrics of terminated pods, truncated label ratios - so the
+			// attribution cannot demand equality without copying the implementation.)
+			explained := func(alt *big.Rat) bool { return v.Cmp(c09Pos(alt)) <= 0 }
 			switch {
 			case pol == c09PolRequest && in.systemUsed()[res] > in.reserved()[res] &&
-				v.Cmp(c09Pos(c09Bound(in, res, zone, c09Variant{reservedOnly: true}))) <= 0:
+				explained(c09Bound(in, res, zone, c09Variant{reservedOnly: true})):
 				c.Report("C09/"+area+"/request-policy-system-usage-above-reservation",
 					"%s; it equals the bound only if the reservation is subtracted instead of the larger of system usage and reservation", detail)
 				c.Count("known_request_policy_reservation_only", 1)
 				return
 			case pol == c09PolMax && noMetricHP > 0 &&
-				v.Cmp(c09Pos(c09Bound(in, res, zone, c09Variant{noMetricZero: true}))) <= 0:
+				explained(c09Bound(in, res, zone, c09Variant{noMetricZero: true})):
 				sig := "C09/bound/no-metric-hp-pod-node-level"
 				if zone >= 0 {
 					sig = "C09/zone-bound/no-metric-hp-pod"
